@@ -59,8 +59,8 @@ SGR_STYLE_MAP = {
     21: "underline2",
     22: "not dim not bold",
     23: "not italic",
-    24: "not underline",
-    25: "not blink",
+    24: "not underline not underline2",
+    25: "not blink not blink2",
     26: "not blink2",
     27: "not reverse",
     28: "not conceal",
